@@ -3116,6 +3116,11 @@ https://gcc.gnu.org/bugzilla/show_bug.cgi?id=47485'''))
         element = NinjaBuildElement(self.all_outputs, rel_obj, compiler_name, rel_src)
         element.add_item('ARGS', commands)
         self.add_build(element)
+        # Create introspection information
+        if src.is_built:
+            self.create_target_source_introspection(target, compiler, commands, [], [src])
+        else:
+            self.create_target_source_introspection(target, compiler, commands, [src], [])
         return (rel_obj, rel_src)
 
     @lru_cache(maxsize=None)
